@@ -2383,10 +2383,18 @@ class StridedInterval:
         :param new_length: New length after zero-extension
         :return: A new StridedInterval
         """
-        si = self.copy()
-        si._bits = new_length
-
-        return si
+        # An interval that wraps past zero does not do so any more once the circle is larger: its two runs
+        # [lower_bound, 2**bits - 1] and [0, upper_bound] are extended separately and joined
+        pieces = []
+        for piece in self._ssplit():
+            si = piece.copy()
+            si._bits = new_length
+            pieces.append(si)
+        if len(pieces) == 1:
+            return pieces[0]
+        ret = StridedInterval.least_upper_bound(*pieces)
+        ret.uninitialized = self.uninitialized
+        return ret
 
     @reversed_processor
     def sign_extend(self, new_length: int) -> StridedInterval:
